@@ -29,6 +29,10 @@ MODULES = [
     ("Facts", "gen_facts"),
     ("Schema", "gen_schema"),
     ("DeclPin", "gen_declpin"),
+    ("PinsC01", "gen_pins_c01"),
+    ("PinsC02", "gen_pins_c02"),
+    ("PinsC03", "gen_pins_c03"),
+    ("PinsC12", "gen_pins_c12"),
 ]
 
 
